@@ -136,6 +136,13 @@ def step (st : St) (cmd : String) (args : List String) : St × String :=
       let (st', r) := doOp st (.addTrack c t)
       (st', if r.startsWith "ok" then "ok" else r)
     | _, _ => (st, "bad-op args")
+  | "addforeign", [c, t, u] =>
+    match cr c, tr t, u.toInt? with
+    | some c, some t, some u =>
+      if !qValid st.db c then (st, "ok skipped") else
+      let (st', r) := doOp st (.peAddBack c t u false)
+      (st', if r.startsWith "ok" then "ok" else r)
+    | _, _, _ => (st, "bad-op args")
   | "rmtrackfrom", [c, t] =>
     match cr c, tr t with
     | some c, some t => doOp st (.removeTrackFrom c t)
@@ -165,7 +172,7 @@ def step (st : St) (cmd : String) (args : List String) : St × String :=
     | some l =>
       (st, render do
         let es ← qEntities st.db l
-        let ts ← qTracks st.db l
+        let ts ← qTrackIds st.db l
         pure s!"[{",".intercalate (es.map fun (e, t, u) => s!"{e}:{t}:{u}")}] {showIds ts}")
     | none => (st, "bad-op args")
   | "pl.list", [p] =>
